@@ -195,33 +195,33 @@ func rulePendingKey(c *Ctx) {
 	})
 	// the overlay's StoreOrSwap records its own parameters
 	so := p.findFunc("plenccodec", "wrappedCodecRegistry", "StoreOrSwap")
-	if so != nil {
-		sinfo := so.Pkg.TypesInfo
-		ps := paramObjs(sinfo, so.Decl)
-		good := false
-		ast.Inspect(so.Decl.Body, func(x ast.Node) bool {
-			cl, ok := x.(*ast.CompositeLit)
-			if !ok || typeName(sinfo.TypeOf(cl)) != "pendingCodec" {
-				return true
-			}
-			got := map[string]bool{}
-			for _, e := range cl.Elts {
-				kv, ok := e.(*ast.KeyValueExpr)
+	if sf := p.ssaFunc("plenccodec.wrappedCodecRegistry.StoreOrSwap"); so != nil && sf != nil && len(sf.Params) == 4 {
+		// every store into a field of a pendingCodec puts the parameter of that
+		// role there: typ <- 2nd, tag <- 3rd, codec <- 4th (however the entry is built)
+		want := map[string]ssa.Value{"typ": sf.Params[1], "tag": sf.Params[2], "codec": sf.Params[3]}
+		got := map[string]bool{}
+		good := true
+		for _, b := range sf.Blocks {
+			for _, in := range b.Instrs {
+				st, ok := in.(*ssa.Store)
 				if !ok {
 					continue
 				}
-				k := kv.Key.(*ast.Ident).Name
-				if id, ok := ast.Unparen(kv.Value).(*ast.Ident); ok {
-					for _, po := range ps {
-						if po != nil && sinfo.Uses[id] == po && ((k == "codec" && po.Name() == "c") || po.Name() == k) {
-							got[k] = true
-						}
+				fa, ok := st.Addr.(*ssa.FieldAddr)
+				if !ok || typeName(derefT(fa.X.Type())) != "pendingCodec" {
+					continue
+				}
+				fnm := fieldName(fa)
+				if w, ok := want[fnm]; ok {
+					if st.Val == w {
+						got[fnm] = true
+					} else {
+						good = false
 					}
 				}
 			}
-			good = got["typ"] && got["tag"] && got["codec"]
-			return true
-		})
+		}
+		good = good && got["typ"] && got["tag"] && got["codec"]
 		n++
 		c.Oblige("T.key.pending", good, so.Decl.Pos(), so.Name(), "overlay records (typ, tag, codec) as given", "the overlay must remember the key it was asked to store under", nil)
 	}
